@@ -24,7 +24,6 @@ use noodles_vcf as vcf;
 use std::io::Write as _;
 use std::num::NonZero;
 
-const DIR: &str = "/verif/work/C04/files";
 
 #[derive(Clone, Debug)]
 pub struct GRec {
@@ -362,7 +361,7 @@ fn bam_case(ctx: &mut Ctx, sub: u64) {
     let limit = maxpos(14, 5).min(maxpos(ms, d)); // BAM coordinates (and BAI) stop at 2^29 - 1
     let g = gen_records(&mut rng, limit, true);
     let header = sam_header(&g);
-    let path = format!("{DIR}/{sub}.bam");
+    let path = format!("{}/files/{sub}.bam", ctx.dir);
     let r = guarded(|| -> std::io::Result<()> {
         let mut w = bam::io::Writer::new(std::fs::File::create(&path)?);
         w.write_header(&header)?;
@@ -564,7 +563,7 @@ fn variant_case(ctx: &mut Ctx, sub: u64, bcf_format: bool) {
     let g = gen_records(&mut rng, limit, false);
     let v45 = rng.chance(1, 2);
     let header = vcf_header(&g, v45);
-    let path = format!("{DIR}/{sub}.{}", if bcf_format { "bcf" } else { "vcf.gz" });
+    let path = format!("{}/files/{sub}.{}", ctx.dir, if bcf_format { "bcf" } else { "vcf.gz" });
     let wr = guarded(|| -> std::io::Result<()> {
         use vcf::variant::io::Write as _;
         if bcf_format {
@@ -814,7 +813,7 @@ fn synthetic(ctx: &mut Ctx, sub: u64) {
 }
 
 pub fn run(ctx: &mut Ctx) {
-    std::fs::create_dir_all(DIR).ok();
+    std::fs::create_dir_all(format!("{}/files", ctx.dir)).ok();
     if let Some(case) = ctx.replay_only.clone() {
         let sub: u64 = case.get(1).and_then(|s| s.parse().ok()).unwrap_or(0);
         match case.first().map(|s| s.as_str()) {
